@@ -253,25 +253,29 @@ _PROB_TRUST = ("Trusted: the harness's typed generator / printer / exact evaluat
                "(get, arith_value, sat value of sigma, ov value). Shapes covered by the known findings KF1-KF4 are excluded by named generator predicates and represented by their replay files.")
 
 PROPS["C01"] = {
-    "runs": _prob("C01", 1000, 20000, layers=("L0", "L1", "L3"), l0_mult=4, budget_ms=10000),
+    "runs": _prob("C01", 1000, 20000, layers=("L0", "L1", "L3", "L2p"), l0_mult=4, budget_ms=10000),
     "rule": "Typed RIDDLE problems generated with a printer and an exact evaluator, read and solved in-process (solver::read + solve) in each configuration of the run "
             "(quick: Debug h_max and Debug h_add + CHECK_INCONSISTENCIES; thorough: all 8 of h_max/h_add x CI off/on x Debug/Release). Layers: L0 real/int/bool variables, linear "
             "relations with rational coefficients (products with constants on either side, division, unary +/-), & | -> ^ ! == != between booleans, disjunction statements; "
-            "L1 adds class hierarchies, instances, object variables, field accesses through variables, object (dis)equalities; L3 adds state-variable and reusable-resource timelines. "
+            "L1 adds class hierarchies, instances, object variables, field accesses through variables, object (dis)equalities; L3 adds state-variable and reusable-resource timelines; "
+            "L2p: planted rule problems whose goals interact through one shared variable (real n in [lo, hi]; predicates P(real x) { x ==|<=|>= n; }; 2-4 goals with 2-3 alternative "
+            "subgoals P(x: v), one of them true under the witness value of n, the others clashing with other goals' choices or dead ends outside n's bounds) - here the constraint in "
+            "the rule body of every active atom is re-evaluated on the reported values. "
             "About 2/3 of the problems are planted around a witness. Oracle when solve() returns true: every asserted constraint evaluates to true (three-valued, exact arithmetic "
             "with infinitesimals) on the reported values, for EVERY remaining value of the object variables it mentions; at least one disjunct of every disjunction statement holds. "
             "Non-trivial: solved and a relation over >= 2 variable occurrences, a disjunction statement or an object variable was evaluated. Distinct by program text.",
     "technique": "property-based testing with a typed program generator and an exact re-evaluation of the reported solution; configuration matrix",
     "level_text": "Random well-typed programs; the reported solution is re-evaluated against the program by an independent evaluator. Rule bodies are covered for smart-type predicates through "
-                  "the plan validators (C04-C06); constraints inside user rule bodies are not re-evaluated (no hook H3 was built).",
+                  "the plan validators (C04-C06); constraints inside user rule bodies are re-evaluated for the rule shapes of layer L2p and of C03's generator only (no hook H3 was built).",
     "level_note": _PROB_TRUST,
-    "assumptions": ["int variables are LRA reals without integrality", "constraints in user-defined rule bodies are outside this check"],
+    "assumptions": ["int variables are LRA reals without integrality", "constraints in user-defined rule bodies are re-evaluated only for the generated rule shapes (L2p here, C03's rules there)"],
 }
 PROPS["C02"] = {
-    "runs": _prob("C02", 800, 20000, layers=("L0", "L1", "L3"), l0_mult=2, budget_ms=10000),
+    "runs": _prob("C02", 800, 20000, layers=("L0", "L1", "L3", "L2p"), l0_mult=2, budget_ms=10000),
     "rule": "Same generator as C01. (a) Free problems of layers L0/L1 are translated to Z3 (reals, booleans, finite-domain integers for object variables, field accesses as ite chains): "
             "'unsolvable' (false from solve(), unsolvable / inconsistency exception from read() or solve()) while Z3 finds a model is a violation. (b) Planted problems of all layers "
-            "(a witness assignment / schedule is drawn first and every emitted constraint is true under it) must never be declared unsolvable. Non-trivial: the verdict was unsolvable, or the "
+            "(a witness assignment / schedule is drawn first and every emitted constraint is true under it; layer L2p: rule problems with alternative subgoals interacting through a shared "
+            "variable, some alternatives dead ends, so that the first causal graph is often insufficient) must never be declared unsolvable. Non-trivial: the verdict was unsolvable, or the "
             "problem was planted. Distinct by program text. (c) For every third L0/L1 program (chosen by a hash of its text) three semantically equivalent formulations are solved as well - every "
             "generated identifier renamed consistently, tautologies appended ('true;', 'x <= x + 1.0;', 'b -> b;'), the independent single-line statements of the second read() in reverse "
             "order - and must get the verdict of the original (counter metamorphic_variants). The learnt-clause entailment oracle at solver level was not built; learnt clauses are "
@@ -359,7 +363,8 @@ def _c03(tier):
     n = 450 if q else 40000
     runs = [{"cfg": "dbg-l", "harness": "h_exec", "cases": n, "max_size": 300, "shards": 8, "budget_ms": 20000, "excl": list(GEN_EXCL)}]
     for c in (["dbg", "dbg-hadd-ci"] if q else ALL_CFGS):
-        runs.append({"cfg": c, "harness": "h_prob", "cases": n, "max_size": 300, "shards": 4 if q else 2, "budget_ms": 20000, "excl": list(GEN_EXCL)})
+        runs.append({"cfg": c, "harness": "h_prob", "cases": n, "max_size": 300, "shards": 3 if q else 2, "budget_ms": 20000, "excl": list(GEN_EXCL)})
+        runs.append({"cfg": c, "harness": "h_prob", "cases": n, "max_size": 300, "shards": 1, "budget_ms": 20000, "excl": list(GEN_EXCL), "opts": {"layer": "L2p"}})
     return runs
 
 
@@ -373,7 +378,10 @@ PROPS["C03"] = {
             "Active and of the same predicate; an atom whose flaw is active is Active or Unified; the graph 'gave rise to' (through resolvers true in the solution) + 'is unified with' is acyclic. "
             "Rule application (all configurations, from the generator's own record of every rule): for every Active goal the body constraint of its rule (a <= b) holds in the reported "
             "values, every subgoal the rule prescribes is in the plan (an Active or Unified atom of the sub-predicate with exactly the prescribed argument values), for a disjunctive body "
-            "at least one alternative is in the plan, and no goal of a predicate whose rule is 'false' is Active (counter applied_rules_checked). "
+            "at least one alternative is in the plan, and no goal of a predicate whose rule is 'false' is Active (counter applied_rules_checked). Half of the problems declare a base "
+            "predicate B(real c) { c >= 1.0; [goal sb = new Q0(a: c);] } from which some predicates derive, half of those with an empty body of their own: the inherited rule must be "
+            "applied to every active goal of a derived predicate. One shard per configuration runs the shared-variable problems of C01's layer L2p (every top-level goal active, one "
+            "alternative's subgoal in the plan). "
             "Non-trivial: the solution contains >= 1 unified and >= 1 active atom. Distinct by program text.",
     "technique": "property-based testing; validity predicates over the reported plan and over the derivation graph recorded through the public listener interface",
     "level_text": "Random rule structures with many unification opportunities; the derivation graph of every solution is validated. The unification target is read from the resolver's own description "
